@@ -5,6 +5,7 @@ import (
 	"fmt"
 	"math"
 	"strings"
+	"sync/atomic"
 	"time"
 )
 
@@ -603,4 +604,83 @@ func init() {
 		{Name: "serial", Share: 10, Sc: scC08Serial},
 		{Name: "race", Share: 3, Sc: scC08Race, Race: true},
 	}})
+}
+
+// scC04CrossBurst: all streams of one muxer rotate inside one critical section, so whatever stream a requester
+// reads next can never be behind what it has already seen on another stream. One step releases the writer (the
+// whole script, back to back) and 2-4 readers that alternate between the streams' playlists as fast as they
+// can; true concurrency reaches windows that carry no yield hook. Judged at rest only: per reader, the last
+// media sequence number listed never decreases from one response to the next, whatever the stream.
+func scC04CrossBurst(r *Run) {
+	T := r.T
+	g := &muxGen{variants: []string{"fmp4", "ll"}, minCalls: 300, maxCalls: 1500, fastRotation: true, paramChanges: T.Chance(1, 3), forceVideo: T.Chance(1, 2)}
+	cfg := genMuxCfg(r, g)
+	if len(cfg.tracks) < 2 {
+		r.Probe("single-stream")
+		return
+	}
+	script := genScript(r, cfg, g)
+	w, err := newMuxWorld(r, cfg, script)
+	if err != nil {
+		r.Probe("start-error")
+		return
+	}
+	uris := guessStreamURIs(cfg)
+	nReaders := T.Range(2, 4)
+	r.Tracef("config %s calls=%d readers=%d", cfg, len(script), nReaders)
+	var done atomic.Bool
+	type obsv struct {
+		stream string
+		last   int
+	}
+	results := make([][]obsv, nReaders)
+	var readers []*Task
+	for i := 0; i < nReaders; i++ {
+		readers = append(readers, w.newClient(fmt.Sprintf("reader%d", i)))
+	}
+	r.Step()
+	w.next = len(script)
+	w.writer.StartNoWait(func() {
+		for _, cl := range script {
+			if cl.err = w.doWrite(cl); cl.err != nil {
+				break
+			}
+			cl.done = true
+		}
+		done.Store(true)
+	})
+	for i, t := range readers {
+		i := i
+		t.StartNoWait(func() {
+			k := i
+			for !done.Load() {
+				u := uris[k%len(uris)]
+				k++
+				resp := w.directGet(u) // blocks until the first content is available
+				if resp.effStatus() != 200 || len(resp.body) == 0 {
+					continue
+				}
+				pl, err := parseMediaPlaylist(resp.body)
+				if err != nil {
+					continue
+				}
+				results[i] = append(results[i], obsv{u, pl.MediaSequence + len(pl.Segments) - 1})
+			}
+		})
+	}
+	syncWait()
+	for i, rs := range results {
+		for k := 1; k < len(rs); k++ {
+			if rs[k].last < rs[k-1].last {
+				r.Fail("cross-stream-order", "went-back", "reader %d saw media sequence %d as the last one of %s and then, later, only %d as the last one of %s: the streams were not rotated at the same instant",
+					i, rs[k-1].last, rs[k-1].stream, rs[k].last, rs[k].stream)
+				break
+			}
+		}
+		if len(rs) > 10 {
+			r.Probe("reader-made-progress")
+		}
+	}
+	r.Stats.NonTrivial = true
+	w.finish()
 }
